@@ -56,6 +56,8 @@ class Polynomial:
             return self
         if not isinstance(other, self.__class__):
             other = self.__class__(other)
+        if self == 0:
+            return other
 
         ai = bi = 0
         al = len(self)
